@@ -6,14 +6,18 @@ package c19
 import (
 	"bytes"
 	"fmt"
+	"io"
 	"testing"
 
 	"pgregory.net/rapid"
 
 	"github.com/tink-crypto/tink-go/v2/aead"
+	aeadsubtle "github.com/tink-crypto/tink-go/v2/aead/subtle"
+	"github.com/tink-crypto/tink-go/v2/core/registry"
 	"github.com/tink-crypto/tink-go/v2/daead"
 	daeadsubtle "github.com/tink-crypto/tink-go/v2/daead/subtle"
 	"github.com/tink-crypto/tink-go/v2/hybrid"
+	"github.com/tink-crypto/tink-go/v2/internal/protoserialization"
 	"github.com/tink-crypto/tink-go/v2/keyset"
 	"github.com/tink-crypto/tink-go/v2/mac"
 	macsubtle "github.com/tink-crypto/tink-go/v2/mac/subtle"
@@ -46,37 +50,126 @@ func finish(p *probe, class string, fp uint64, sample any) {
 	evid.Case(class, p.spares > 0, fp, func() any { return sample })
 }
 
-// legacyHandle builds a one-key handle over a harness-owned (legacy, registry-provided) key type.
-func legacyHandle(rt *rapid.T, url string, keyLen int) (*keyset.Handle, []byte, tinkpb.OutputPrefixType, uint32) {
-	pt := rapid.SampledFrom(prefixTypes).Draw(rt, "prefixtype")
+// legacyHandle builds a handle over a harness-owned (legacy, registry-provided) key type: one key,
+// or - every second case - two keys, a RAW one placed first and the drawn one second as the
+// primary, so that the wrapper's trial loop over the RAW keys (and, on failing calls, over the
+// prefix-matching key AND the RAW keys) runs with the caller's buffers. shape is "1key" or
+// "2keys(RAW+<prefix type of the primary>)".
+func legacyHandle(rt *rapid.T, url string, keyLen int) (h *keyset.Handle, desc, shape string) {
+	pt := gen.Pick(rt, "prefixtype", prefixTypes)
 	id := gen.KeyID(rt, "id")
 	if id == 0 {
 		id = 1
 	}
 	kb := gen.BytesN(rt, "legacykey", keyLen)
 	ks := &tinkpb.Keyset{PrimaryKeyId: id, Key: []*tinkpb.Keyset_Key{legacykm.Key(url, kb, legacykm.Material(url), pt, id, tinkpb.KeyStatusType_ENABLED)}}
+	desc = fmt.Sprintf("prefix=%v id=%#x key=%x", pt, id, kb)
+	shape = "1key"
+	if gen.OneIn(rt, "second_key", 2) {
+		id2 := id ^ 0x40
+		if id2 == 0 {
+			id2 = 2
+		}
+		kb2 := gen.BytesN(rt, "legacykey2", keyLen)
+		ks.Key = []*tinkpb.Keyset_Key{legacykm.Key(url, kb2, legacykm.Material(url), tinkpb.OutputPrefixType_RAW, id2, tinkpb.KeyStatusType_ENABLED), ks.Key[0]}
+		desc += fmt.Sprintf(" (second entry, primary) after a RAW key id=%#x key=%x", id2, kb2)
+		shape = fmt.Sprintf("2keys(RAW+%v)", pt)
+	}
 	h, err := legacykm.HandleFromProto(ks)
 	if err != nil {
 		rt.Fatalf("legacy handle (%s): %v", url, err)
 	}
-	return h, kb, pt, id
+	return h, desc, shape
 }
 
-// TestAEADBuffers: Encrypt / Decrypt of every AEAD type, variant and route, plus the legacy adapter.
+// candidates for the failing paths: C19 holds for calls that return an error too (seeded changes
+// C01c and C06b wrote on such paths). Whether the call fails is not this property's business: the
+// verdicts are counted only.
+func flipped(b []byte, i int) []byte {
+	out := bytes.Clone(b)
+	if len(out) == 0 {
+		return []byte{1}
+	}
+	out[(i%len(out)+len(out))%len(out)] ^= 1
+	return out
+}
+
+func extended(b []byte) []byte { return append(bytes.Clone(b), 0x01) }
+
+func failing(err error) {
+	evid.Add("failing_path_calls", 1)
+	if err != nil {
+		evid.Add("failing_path_calls_rejected", 1)
+	}
+}
+
+type dekTemplate struct {
+	name string
+	kt   func() *tinkpb.KeyTemplate
+}
+
+var dekTemplates = []dekTemplate{
+	{"AES128_GCM", aead.AES128GCMKeyTemplate}, {"AES256_GCM", aead.AES256GCMKeyTemplate},
+	{"AES128_CTR_HMAC_SHA256", aead.AES128CTRHMACSHA256KeyTemplate}, {"CHACHA20_POLY1305", aead.ChaCha20Poly1305KeyTemplate},
+	{"XCHACHA20_POLY1305", aead.XChaCha20Poly1305KeyTemplate}, {"AES128_GCM_SIV", aead.AES128GCMSIVKeyTemplate},
+}
+
+var aeadKinds = []string{"legacy", "case", "case", "case", "envelope", "registry.Primitive", "registry.PrimitiveFromKeyData"}
+
+// TestAEADBuffers: Encrypt / Decrypt of every AEAD type, variant and route (incl. the per-key full
+// primitive and the key manager's primitive), the legacy adapter, the KMS envelope AEAD through its
+// three routes, and primitives obtained from registry.Primitive / PrimitiveFromKeyData (whose
+// serialized-key argument is a caller buffer as well).
 func TestAEADBuffers(t *testing.T) {
 	rapid.Check(t, func(rt *rapid.T) {
 		detrand.Seed(rapid.Uint64().Draw(rt, "entropy"))
+		p := &probe{t: rt}
 		var a tink.AEAD
-		var desc string
-		if rapid.IntRange(0, 4).Draw(rt, "legacy") == 0 {
-			h, kb, pt, id := legacyHandle(rt, legacykm.AeadURL, 32)
-			a = tk.Must(aead.New(h))
-			desc = fmt.Sprintf("legacy AEAD adapter prefix=%v id=%#x key=%x", pt, id, kb)
-		} else {
-			c := aeadcase.Draw(rt)
-			a, desc = c.P, c.String()
+		var desc, class string
+		kind := gen.Pick(rt, "kind", aeadKinds)
+		switch kind {
+		case "legacy":
+			h, d, shape := legacyHandle(rt, legacykm.AeadURL, 32)
+			a, desc, class = tk.Must(aead.New(h)), "legacy AEAD adapter "+d, "legacy/"+shape
+		case "case":
+			c := aeadcase.DrawTypeRoutes(rt, gen.Pick(rt, "aeadtype", aeadcase.Types), aeadcase.RoutesAll)
+			a, desc, class = c.P, c.String(), c.Type+"/"+c.Variant+"/"+c.Route
+		case "envelope":
+			api := gen.Pick(rt, "api", tk.EnvelopeAPIsAll)
+			dek := gen.Pick(rt, "dek", dekTemplates)
+			kekKey := gen.BytesN(rt, "kekkey", 32)
+			env, err := tk.Envelope(api, dek.kt(), tk.Must(aeadsubtle.NewAESGCM(kekKey)))
+			if err != nil {
+				rt.Fatalf("KMS envelope AEAD (%s, DEK %s): %v", api, dek.name, err)
+			}
+			a, desc, class = env, fmt.Sprintf("KMS envelope AEAD api=%s DEK=%s KEK=AES256-GCM %x", api, dek.name, kekKey), "envelope/"+api+"/"+dek.name
+		default:
+			// the serialized key is an argument too: it lives in an arena that is overwritten below
+			c := aeadcase.DrawTypeRoutes(rt, gen.Pick(rt, "aeadtype", aeadcase.Types), []string{"handle"})
+			ks, err := protoserialization.SerializeKey(c.K)
+			if err != nil {
+				rt.Fatalf("%v: SerializeKey: %v", c, err)
+			}
+			kd := ks.KeyData()
+			val := p.in("serialized key", kd.GetValue())
+			var v any
+			if kind == "registry.Primitive" {
+				v, err = registry.Primitive(kd.GetTypeUrl(), val)
+			} else {
+				v, err = registry.PrimitiveFromKeyData(&tinkpb.KeyData{TypeUrl: kd.GetTypeUrl(), Value: val, KeyMaterialType: kd.GetKeyMaterialType()})
+			}
+			if err != nil {
+				rt.Fatalf("%s for the serialization of %v: %v", kind, c, err)
+			}
+			var ok bool
+			if a, ok = v.(tink.AEAD); !ok {
+				rt.Fatalf("%s for the serialization of %v: %T is not a tink.AEAD", kind, c, v)
+			}
+			desc, class = kind+"(serialized key in a caller buffer) of "+c.String(), kind+"/"+c.Type
+			p.desc = desc
+			p.verify(kind)
 		}
-		p := &probe{t: rt, desc: desc}
+		p.desc = desc
 		pt := gen.Bytes(rt, "pt", 300)
 		ad := gen.BytesOrNil(rt, "ad", 100)
 		ptIn, adIn := p.in("plaintext", pt), p.in("associated data", ad)
@@ -94,10 +187,15 @@ func TestAEADBuffers(t *testing.T) {
 		}
 		p.verify("Decrypt")
 		p.out("Decrypt", "plaintext", got)
-		// a failing Decrypt must not write either
-		bad := p.in("modified ciphertext", append(append([]byte{}, saved[:len(saved)-1]...), saved[len(saved)-1]^1))
-		_, _ = a.Decrypt(bad, adIn2)
-		p.verify("Decrypt(modified)")
+		// failing Decrypt calls must not write either
+		for i, bad := range [][]byte{flipped(saved, -1), flipped(saved, 0), flipped(saved, len(saved)/2), saved[:len(saved)/2], saved[:min(len(saved), 4)], extended(saved)} {
+			_, err := a.Decrypt(p.in(fmt.Sprintf("modified ciphertext #%d", i), bad), adIn2)
+			failing(err)
+			p.verify(fmt.Sprintf("Decrypt(modified ciphertext #%d)", i))
+		}
+		_, err = a.Decrypt(ctIn, p.in("other associated data", extended(ad)))
+		failing(err)
+		p.verify("Decrypt(other associated data)")
 		// caller reuses / mutates everything it passed in or got back: later results unaffected
 		p.scribble()
 		flipAll(ct)
@@ -106,34 +204,34 @@ func TestAEADBuffers(t *testing.T) {
 		if err != nil || !bytes.Equal(got2, pt) {
 			rt.Fatalf("%s: after the caller mutated earlier inputs and outputs, Decrypt of the saved ciphertext gives %v", desc, err)
 		}
-		finish(p, "aead/"+desc[:min(len(desc), 18)], evid.NewH().S(desc).B(pt).B(ad).Sum(), map[string]any{"primitive": desc, "pt_len": len(pt), "ad_len": len(ad)})
+		finish(p, "aead/"+class, evid.NewH().S(desc).B(pt).B(ad).Sum(), map[string]any{"primitive": desc, "pt_len": len(pt), "ad_len": len(ad)})
 	})
 }
 
 type macMaker struct {
 	name string
-	f    func(rt *rapid.T) (tink.MAC, string)
+	f    func(rt *rapid.T) (tink.MAC, string, string)
 }
 
 func macMakers() []macMaker {
 	return []macMaker{
-		{"legacy", func(rt *rapid.T) (tink.MAC, string) {
-			h, kb, pt, id := legacyHandle(rt, legacykm.MacURL, 32)
-			return tk.Must(mac.New(h)), fmt.Sprintf("legacy MAC adapter prefix=%v id=%#x key=%x", pt, id, kb)
+		{"legacy", func(rt *rapid.T) (tink.MAC, string, string) {
+			h, d, shape := legacyHandle(rt, legacykm.MacURL, 32)
+			return tk.Must(mac.New(h)), "legacy MAC adapter " + d, "/" + shape
 		}},
-		{"hmac-template", func(rt *rapid.T) (tink.MAC, string) {
-			kt := rapid.SampledFrom([]*tinkpb.KeyTemplate{mac.HMACSHA256Tag128KeyTemplate(), mac.HMACSHA512Tag512KeyTemplate(), mac.AESCMACTag128KeyTemplate()}).Draw(rt, "template")
-			kt.OutputPrefixType = rapid.SampledFrom(prefixTypes).Draw(rt, "prefixtype")
+		{"hmac-template", func(rt *rapid.T) (tink.MAC, string, string) {
+			kt := gen.Pick(rt, "template", []*tinkpb.KeyTemplate{mac.HMACSHA256Tag128KeyTemplate(), mac.HMACSHA512Tag512KeyTemplate(), mac.AESCMACTag128KeyTemplate()})
+			kt.OutputPrefixType = gen.Pick(rt, "prefixtype", prefixTypes)
 			h := tk.Must(keyset.NewHandle(kt))
-			return tk.Must(mac.New(h)), fmt.Sprintf("MAC %s prefix=%v", kt.TypeUrl, kt.OutputPrefixType)
+			return tk.Must(mac.New(h)), fmt.Sprintf("MAC %s prefix=%v", kt.TypeUrl, kt.OutputPrefixType), fmt.Sprintf("/%v", kt.OutputPrefixType)
 		}},
-		{"subtle-hmac", func(rt *rapid.T) (tink.MAC, string) {
+		{"subtle-hmac", func(rt *rapid.T) (tink.MAC, string, string) {
 			k := gen.BytesN(rt, "key", 32)
-			return tk.Must(macsubtle.NewHMAC("SHA256", k, 16)), fmt.Sprintf("subtle HMAC key=%x", k)
+			return tk.Must(macsubtle.NewHMAC("SHA256", k, 16)), fmt.Sprintf("subtle HMAC key=%x", k), ""
 		}},
-		{"subtle-cmac", func(rt *rapid.T) (tink.MAC, string) {
+		{"subtle-cmac", func(rt *rapid.T) (tink.MAC, string, string) {
 			k := gen.BytesN(rt, "key", 32)
-			return tk.Must(macsubtle.NewAESCMAC(k, 16)), fmt.Sprintf("subtle CMAC key=%x", k)
+			return tk.Must(macsubtle.NewAESCMAC(k, 16)), fmt.Sprintf("subtle CMAC key=%x", k), ""
 		}},
 	}
 }
@@ -142,8 +240,8 @@ func TestMACBuffers(t *testing.T) {
 	makers := macMakers()
 	rapid.Check(t, func(rt *rapid.T) {
 		detrand.Seed(rapid.Uint64().Draw(rt, "entropy"))
-		mk := rapid.SampledFrom(makers).Draw(rt, "maker")
-		m, desc := mk.f(rt)
+		mk := gen.Pick(rt, "maker", makers)
+		m, desc, shape := mk.f(rt)
 		p := &probe{t: rt, desc: desc}
 		msg := gen.Bytes(rt, "msg", 200)
 		in := p.in("message", msg)
@@ -159,39 +257,48 @@ func TestMACBuffers(t *testing.T) {
 			rt.Fatalf("%s: VerifyMAC: %v", desc, err)
 		}
 		p.verify("VerifyMAC")
-		_ = m.VerifyMAC(p.in("short tag", saved[:len(saved)/2]), msgIn)
-		p.verify("VerifyMAC(short)")
+		// failing VerifyMAC calls: short tag, wrong tags of the right length, another message
+		for i, bad := range [][]byte{saved[:len(saved)/2], flipped(saved, -1), flipped(saved, 0), flipped(saved, len(saved)/2), extended(saved)} {
+			failing(m.VerifyMAC(p.in(fmt.Sprintf("wrong tag #%d", i), bad), msgIn))
+			p.verify(fmt.Sprintf("VerifyMAC(wrong tag #%d)", i))
+		}
+		failing(m.VerifyMAC(tagIn, p.in("other message", extended(msg))))
+		p.verify("VerifyMAC(other message)")
 		p.scribble()
 		flipAll(tag)
 		tag2, err := m.ComputeMAC(msg)
 		if err != nil || !bytes.Equal(tag2, saved) {
 			rt.Fatalf("%s: ComputeMAC changed after the caller mutated earlier inputs/outputs: %x vs %x", desc, tag2, saved)
 		}
-		finish(p, "mac/"+mk.name, evid.NewH().S(desc).B(msg).Sum(), map[string]any{"primitive": desc, "msg_len": len(msg)})
+		finish(p, "mac/"+mk.name+shape, evid.NewH().S(desc).B(msg).Sum(), map[string]any{"primitive": desc, "msg_len": len(msg)})
 	})
 }
 
+var signatureTemplates = []func() *tinkpb.KeyTemplate{signature.ED25519KeyTemplate, signature.ECDSAP256KeyTemplate, signature.ECDSAP256RawKeyTemplate, signature.ED25519KeyWithoutPrefixTemplate}
+
 func TestSignatureBuffers(t *testing.T) {
-	templates := []*tinkpb.KeyTemplate{signature.ED25519KeyTemplate(), signature.ECDSAP256KeyTemplate(), signature.ECDSAP256RawKeyTemplate(), signature.ED25519KeyWithoutPrefixTemplate()}
 	rapid.Check(t, func(rt *rapid.T) {
 		detrand.Seed(rapid.Uint64().Draw(rt, "entropy"))
 		var h *keyset.Handle
 		var desc string
-		kind := rapid.SampledFrom([]string{"legacy", "template", "template-legacy-prefix"}).Draw(rt, "kind")
+		kind := gen.Pick(rt, "kind", []string{"legacy", "template", "template-legacy-prefix"})
+		class := kind
 		switch kind {
 		case "legacy":
-			var kb []byte
-			var pt tinkpb.OutputPrefixType
-			var id uint32
-			h, kb, pt, id = legacyHandle(rt, legacykm.SignerURL, 32)
-			desc = fmt.Sprintf("legacy signer/verifier adapters prefix=%v id=%#x seed=%x", pt, id, kb)
+			var d, shape string
+			h, d, shape = legacyHandle(rt, legacykm.SignerURL, 32)
+			desc, class = "legacy signer/verifier adapters (key = seed) "+d, kind+"/"+shape
 		default:
-			kt := rapid.SampledFrom(templates).Draw(rt, "template")
+			// a template of the case's own (the functions return fresh messages): writing the prefix
+			// type into a template shared by all cases made cases depend on earlier ones
+			ti := gen.Uniform(rt, "template", len(signatureTemplates))
+			kt := signatureTemplates[ti]()
 			if kind == "template-legacy-prefix" {
-				kt.OutputPrefixType = rapid.SampledFrom([]tinkpb.OutputPrefixType{tinkpb.OutputPrefixType_LEGACY, tinkpb.OutputPrefixType_CRUNCHY}).Draw(rt, "prefixtype")
+				kt.OutputPrefixType = gen.Pick(rt, "prefixtype", []tinkpb.OutputPrefixType{tinkpb.OutputPrefixType_LEGACY, tinkpb.OutputPrefixType_CRUNCHY})
 			}
 			h = tk.Must(keyset.NewHandle(kt))
 			desc = fmt.Sprintf("signature %s prefix=%v", kt.TypeUrl, kt.OutputPrefixType)
+			class = fmt.Sprintf("%s/%s/%v", kind, kt.TypeUrl[len("type.googleapis.com/google.crypto.tink."):], kt.OutputPrefixType)
 		}
 		s := tk.Must(signature.NewSigner(h))
 		v := tk.Must(signature.NewVerifier(tk.Must(h.Public())))
@@ -204,18 +311,23 @@ func TestSignatureBuffers(t *testing.T) {
 		p.verify("Sign")
 		p.out("Sign", "signature", sig)
 		saved := append([]byte{}, sig...)
-		if err := v.Verify(p.in("signature", sig), p.in("message (verify)", msg)); err != nil {
+		msgIn := p.in("message (verify)", msg)
+		if err := v.Verify(p.in("signature", sig), msgIn); err != nil {
 			rt.Fatalf("%s: Verify: %v", desc, err)
 		}
 		p.verify("Verify")
-		_ = v.Verify(p.in("short signature", saved[:len(saved)-1]), p.in("message (verify 2)", msg))
-		p.verify("Verify(short)")
+		for i, bad := range [][]byte{saved[:len(saved)-1], flipped(saved, -1), flipped(saved, 0), flipped(saved, len(saved)/2), extended(saved)} {
+			failing(v.Verify(p.in(fmt.Sprintf("wrong signature #%d", i), bad), msgIn))
+			p.verify(fmt.Sprintf("Verify(wrong signature #%d)", i))
+		}
+		failing(v.Verify(p.in("signature 2", saved), p.in("other message", extended(msg))))
+		p.verify("Verify(other message)")
 		p.scribble()
 		flipAll(sig)
 		if err := v.Verify(saved, msg); err != nil {
 			rt.Fatalf("%s: saved signature no longer verifies after the caller mutated earlier buffers: %v", desc, err)
 		}
-		finish(p, "signature/"+kind, evid.NewH().S(desc).B(msg).Sum(), map[string]any{"primitive": desc, "msg_len": len(msg)})
+		finish(p, "signature/"+class, evid.NewH().S(desc).B(msg).Sum(), map[string]any{"primitive": desc, "msg_len": len(msg)})
 	})
 }
 
@@ -224,15 +336,17 @@ func TestDAEADBuffers(t *testing.T) {
 		detrand.Seed(rapid.Uint64().Draw(rt, "entropy"))
 		var d tink.DeterministicAEAD
 		var desc string
-		kind := rapid.SampledFrom([]string{"legacy", "template", "subtle"}).Draw(rt, "kind")
+		kind := gen.Pick(rt, "kind", []string{"legacy", "template", "subtle"})
+		class := kind
 		switch kind {
 		case "legacy":
-			h, kb, pt, id := legacyHandle(rt, legacykm.DaeadURL, 64)
-			d, desc = tk.Must(daead.New(h)), fmt.Sprintf("legacy DAEAD adapter prefix=%v id=%#x key=%x", pt, id, kb)
+			h, ds, shape := legacyHandle(rt, legacykm.DaeadURL, 64)
+			d, desc, class = tk.Must(daead.New(h)), "legacy DAEAD adapter "+ds, kind+"/"+shape
 		case "template":
 			kt := daead.AESSIVKeyTemplate()
-			kt.OutputPrefixType = rapid.SampledFrom(prefixTypes).Draw(rt, "prefixtype")
+			kt.OutputPrefixType = gen.Pick(rt, "prefixtype", prefixTypes)
 			d, desc = tk.Must(daead.New(tk.Must(keyset.NewHandle(kt)))), fmt.Sprintf("AES-SIV prefix=%v", kt.OutputPrefixType)
+			class = fmt.Sprintf("%s/%v", kind, kt.OutputPrefixType)
 		case "subtle":
 			k := gen.BytesN(rt, "key", 64)
 			d, desc = tk.Must(daeadsubtle.NewAESSIV(k)), fmt.Sprintf("subtle AES-SIV key=%x", k)
@@ -247,12 +361,22 @@ func TestDAEADBuffers(t *testing.T) {
 		p.verify("EncryptDeterministically")
 		p.out("EncryptDeterministically", "ciphertext", ct)
 		saved := append([]byte{}, ct...)
-		got, err := d.DecryptDeterministically(p.in("ciphertext", ct), p.in("associated data (decrypt)", ad))
+		adIn := p.in("associated data (decrypt)", ad)
+		got, err := d.DecryptDeterministically(p.in("ciphertext", ct), adIn)
 		if err != nil || !bytes.Equal(got, pt) {
 			rt.Fatalf("%s: Decrypt: %v", desc, err)
 		}
 		p.verify("DecryptDeterministically")
 		p.out("DecryptDeterministically", "plaintext", got)
+		// rejected DecryptDeterministically calls must not write either
+		for i, bad := range [][]byte{flipped(saved, -1), flipped(saved, 0), flipped(saved, len(saved)/2), saved[:len(saved)/2], saved[:min(len(saved), 4)], extended(saved)} {
+			_, err := d.DecryptDeterministically(p.in(fmt.Sprintf("modified ciphertext #%d", i), bad), adIn)
+			failing(err)
+			p.verify(fmt.Sprintf("DecryptDeterministically(modified ciphertext #%d)", i))
+		}
+		_, err = d.DecryptDeterministically(p.in("ciphertext 2", saved), p.in("other associated data", extended(ad)))
+		failing(err)
+		p.verify("DecryptDeterministically(other associated data)")
 		p.scribble()
 		flipAll(ct)
 		flipAll(got)
@@ -260,27 +384,29 @@ func TestDAEADBuffers(t *testing.T) {
 		if err != nil || !bytes.Equal(ct2, saved) {
 			rt.Fatalf("%s: deterministic ciphertext changed after the caller mutated earlier buffers", desc)
 		}
-		finish(p, "daead/"+kind, evid.NewH().S(desc).B(pt).B(ad).Sum(), map[string]any{"primitive": desc, "pt_len": len(pt)})
+		finish(p, "daead/"+class, evid.NewH().S(desc).B(pt).B(ad).Sum(), map[string]any{"primitive": desc, "pt_len": len(pt)})
 	})
 }
 
+var hybridTemplates = []func() *tinkpb.KeyTemplate{hybrid.DHKEM_X25519_HKDF_SHA256_HKDF_SHA256_AES_128_GCM_Key_Template, hybrid.DHKEM_P256_HKDF_SHA256_HKDF_SHA256_AES_256_GCM_Raw_Key_Template, hybrid.ECIESHKDFAES128GCMKeyTemplate, hybrid.ECIESHKDFAES128CTRHMACSHA256KeyTemplate}
+
 func TestHybridBuffers(t *testing.T) {
-	templates := []*tinkpb.KeyTemplate{hybrid.DHKEM_X25519_HKDF_SHA256_HKDF_SHA256_AES_128_GCM_Key_Template(), hybrid.DHKEM_P256_HKDF_SHA256_HKDF_SHA256_AES_256_GCM_Raw_Key_Template(), hybrid.ECIESHKDFAES128GCMKeyTemplate(), hybrid.ECIESHKDFAES128CTRHMACSHA256KeyTemplate()}
 	rapid.Check(t, func(rt *rapid.T) {
 		detrand.Seed(rapid.Uint64().Draw(rt, "entropy"))
 		var h *keyset.Handle
 		var desc string
-		kind := rapid.SampledFrom([]string{"legacy", "template"}).Draw(rt, "kind")
+		kind := gen.Pick(rt, "kind", []string{"legacy", "template"})
+		class := kind
 		if kind == "legacy" {
-			var kb []byte
-			var pt tinkpb.OutputPrefixType
-			var id uint32
-			h, kb, pt, id = legacyHandle(rt, legacykm.HybridPrivURL, 32)
-			desc = fmt.Sprintf("legacy hybrid adapters prefix=%v id=%#x key=%x", pt, id, kb)
+			var d, shape string
+			h, d, shape = legacyHandle(rt, legacykm.HybridPrivURL, 32)
+			desc, class = "legacy hybrid adapters "+d, kind+"/"+shape
 		} else {
-			kt := rapid.SampledFrom(templates).Draw(rt, "template")
+			ti := gen.Uniform(rt, "template", len(hybridTemplates))
+			kt := hybridTemplates[ti]()
 			h = tk.Must(keyset.NewHandle(kt))
 			desc = fmt.Sprintf("hybrid %s prefix=%v", kt.TypeUrl, kt.OutputPrefixType)
+			class = fmt.Sprintf("%s/%d", kind, ti)
 		}
 		enc := tk.Must(hybrid.NewHybridEncrypt(tk.Must(h.Public())))
 		dec := tk.Must(hybrid.NewHybridDecrypt(h))
@@ -294,12 +420,22 @@ func TestHybridBuffers(t *testing.T) {
 		p.verify("Encrypt")
 		p.out("Encrypt", "ciphertext", ct)
 		saved := append([]byte{}, ct...)
-		got, err := dec.Decrypt(p.in("ciphertext", ct), p.in("context info (decrypt)", info))
+		infoIn := p.in("context info (decrypt)", info)
+		got, err := dec.Decrypt(p.in("ciphertext", ct), infoIn)
 		if err != nil || !bytes.Equal(got, pt) {
 			rt.Fatalf("%s: Decrypt: %v", desc, err)
 		}
 		p.verify("Decrypt")
 		p.out("Decrypt", "plaintext", got)
+		// rejected Decrypt calls (prefix, encapsulated key, payload, length, context info) must not write either
+		for i, bad := range [][]byte{flipped(saved, -1), flipped(saved, 0), flipped(saved, 7), flipped(saved, len(saved)/2), saved[:len(saved)/2], saved[:min(len(saved), 4)], extended(saved)} {
+			_, err := dec.Decrypt(p.in(fmt.Sprintf("modified ciphertext #%d", i), bad), infoIn)
+			failing(err)
+			p.verify(fmt.Sprintf("Decrypt(modified ciphertext #%d)", i))
+		}
+		_, err = dec.Decrypt(p.in("ciphertext 2", saved), p.in("other context info", extended(info)))
+		failing(err)
+		p.verify("Decrypt(other context info)")
 		p.scribble()
 		flipAll(ct)
 		flipAll(got)
@@ -307,16 +443,16 @@ func TestHybridBuffers(t *testing.T) {
 		if err != nil || !bytes.Equal(got2, pt) {
 			rt.Fatalf("%s: saved ciphertext no longer decrypts after the caller mutated earlier buffers: %v", desc, err)
 		}
-		finish(p, "hybrid/"+kind, evid.NewH().S(desc).B(pt).B(info).Sum(), map[string]any{"primitive": desc, "pt_len": len(pt)})
+		finish(p, "hybrid/"+class, evid.NewH().S(desc).B(pt).B(info).Sum(), map[string]any{"primitive": desc, "pt_len": len(pt)})
 	})
 }
 
 func TestPRFAndStreamingBuffers(t *testing.T) {
 	rapid.Check(t, func(rt *rapid.T) {
 		detrand.Seed(rapid.Uint64().Draw(rt, "entropy"))
-		kind := rapid.SampledFrom([]string{"prf", "streaming"}).Draw(rt, "kind")
+		kind := gen.Pick(rt, "kind", []string{"prf", "streaming"})
 		if kind == "prf" {
-			kt := rapid.SampledFrom([]*tinkpb.KeyTemplate{prf.HMACSHA256PRFKeyTemplate(), prf.HKDFSHA256PRFKeyTemplate(), prf.AESCMACPRFKeyTemplate()}).Draw(rt, "template")
+			kt := gen.Pick(rt, "template", []*tinkpb.KeyTemplate{prf.HMACSHA256PRFKeyTemplate(), prf.HKDFSHA256PRFKeyTemplate(), prf.AESCMACPRFKeyTemplate()})
 			set := tk.Must(prf.NewPRFSet(tk.Must(keyset.NewHandle(kt))))
 			desc := "PRF " + kt.TypeUrl
 			p := &probe{t: rt, desc: desc}
@@ -328,16 +464,20 @@ func TestPRFAndStreamingBuffers(t *testing.T) {
 			p.verify("ComputePrimaryPRF")
 			p.out("ComputePrimaryPRF", "output", out)
 			saved := append([]byte{}, out...)
+			// a refused request (more output than the PRF can give)
+			_, err = set.ComputePrimaryPRF(p.in("input 2", in), 1<<20)
+			failing(err)
+			p.verify("ComputePrimaryPRF(over-long request)")
 			p.scribble()
 			flipAll(out)
 			out2, err := set.ComputePrimaryPRF(in, 16)
 			if err != nil || !bytes.Equal(out2, saved) {
 				rt.Fatalf("%s: PRF output changed after the caller mutated earlier buffers", desc)
 			}
-			finish(p, "prf", evid.NewH().S(desc).B(in).Sum(), map[string]any{"primitive": desc, "in_len": len(in)})
+			finish(p, "prf/"+kt.TypeUrl[len("type.googleapis.com/google.crypto.tink."):], evid.NewH().S(desc).B(in).Sum(), map[string]any{"primitive": desc, "in_len": len(in)})
 			return
 		}
-		kt := rapid.SampledFrom([]*tinkpb.KeyTemplate{streamingaead.AES128GCMHKDF4KBKeyTemplate(), streamingaead.AES128CTRHMACSHA256Segment4KBKeyTemplate()}).Draw(rt, "template")
+		kt := gen.Pick(rt, "template", []*tinkpb.KeyTemplate{streamingaead.AES128GCMHKDF4KBKeyTemplate(), streamingaead.AES128CTRHMACSHA256Segment4KBKeyTemplate()})
 		sa := tk.Must(streamingaead.New(tk.Must(keyset.NewHandle(kt))))
 		desc := "streaming " + kt.TypeUrl
 		p := &probe{t: rt, desc: desc}
@@ -362,15 +502,33 @@ func TestPRFAndStreamingBuffers(t *testing.T) {
 			rt.Fatalf("%s: Close: %v", desc, err)
 		}
 		p.verify("Close")
-		r, err := sa.NewDecryptingReader(bytes.NewReader(buf.Bytes()), aad)
+		p.arenas = nil // the written chunks are done with (keeps the read loops flat)
+		stream := bytes.Clone(buf.Bytes())
+		r, err := sa.NewDecryptingReader(bytes.NewReader(stream), p.in("aad (read)", aad))
 		if err != nil {
 			rt.Fatalf("%s: %v", desc, err)
 		}
-		var got bytes.Buffer
-		if _, err := got.ReadFrom(r); err != nil || !bytes.Equal(got.Bytes(), all) {
-			rt.Fatalf("%s: stream written from reused caller buffers does not decrypt to what was written: %v", desc, err)
+		got, err := p.readStream("Read", r, len(all))
+		if err != io.EOF || !bytes.Equal(got, all) {
+			rt.Fatalf("%s: stream written from reused caller buffers, read back into caller buffers, gives %d bytes and %v, want the %d bytes written and io.EOF", desc, len(got), err, len(all))
 		}
-		finish(p, "streaming", evid.NewH().S(desc).B(all).Sum(), map[string]any{"primitive": desc, "total": len(all), "writes": nw})
+		// Read of a corrupted stream (one byte changed, or cut): the calls that fail, and those before
+		// them, write inside dst[:len] only
+		bad := flipped(stream, rapid.IntRange(0, len(stream)-1).Draw(rt, "corrupt_at"))
+		if gen.OneIn(rt, "cut", 3) {
+			bad = stream[:rapid.IntRange(0, len(stream)-1).Draw(rt, "cut_at")]
+		}
+		if r, err := sa.NewDecryptingReader(bytes.NewReader(bad), p.in("aad (read 2)", aad)); err == nil {
+			_, err := p.readStream("Read(corrupted stream)", r, len(all))
+			if err == io.EOF {
+				evid.Add("observed_not_asserted/C07_corrupted_stream_read_to_clean_eof", 1)
+			}
+			failing(err)
+		} else {
+			failing(err)
+		}
+		p.verify("reads")
+		finish(p, "streaming/"+kt.TypeUrl[len("type.googleapis.com/google.crypto.tink."):], evid.NewH().S(desc).B(all).Sum(), map[string]any{"primitive": desc, "total": len(all), "writes": nw})
 	})
 }
 
@@ -440,21 +598,12 @@ func subtleCtors() []subtleCtor {
 func sitesig(name string) string { return "key-aliasing:" + name }
 
 func TestSubtleConstructorsCopyKeys(t *testing.T) {
+	// (the aead/subtle constructors are covered by TestAEADKeysCopied; placeholders for them used to
+	// sit in this list and discarded a quarter of the draws)
 	ctors := append(subtleCtors(), moreSubtleCtors()...)
-	for _, sub := range aeadcase.Types {
-		if sub == "XAESGCM" {
-			continue
-		}
-		sub := sub
-		ctors = append(ctors, subtleCtor{name: "aead/subtle(" + sub + ")"})
-		_ = sub
-	}
 	rapid.Check(t, func(rt *rapid.T) {
 		detrand.Seed(rapid.Uint64().Draw(rt, "entropy"))
-		c := rapid.SampledFrom(ctors).Draw(rt, "ctor")
-		if c.build == nil && c.buildWith == nil {
-			rt.Skip("aead subtle constructors are covered by TestAEADKeysCopied")
-		}
+		c := gen.Pick(rt, "ctor", ctors)
 		p := &probe{t: rt, desc: c.name}
 		key := gen.BytesN(rt, "key", c.keyLen)
 		var salt []byte
@@ -500,11 +649,22 @@ func TestSubtleConstructorsCopyKeys(t *testing.T) {
 	})
 }
 
+// subtleAEADTypes: the AEAD types with an aead/subtle constructor.
+var subtleAEADTypes = []string{"AESGCM", "AESCTRHMAC", "AESGCMSIV", "CHACHA20POLY1305", "XCHACHA20POLY1305"}
+
 // TestAEADKeysCopied: the aead/subtle constructors and key objects do not alias the caller's key.
 func TestAEADKeysCopied(t *testing.T) {
 	rapid.Check(t, func(rt *rapid.T) {
 		detrand.Seed(rapid.Uint64().Draw(rt, "entropy"))
-		c := aeadcase.Draw(rt)
+		// The caller's byte slice reaches the library directly only on the "subtle" route (four cases in
+		// five); on the key-object routes it passes through secretdata.NewBytesFromData first, which
+		// TestConstructorsCopyInputs examines on its own (one case in five keeps the whole path).
+		var c *aeadcase.Case
+		if gen.OneIn(rt, "keyobject_route", 5) {
+			c = aeadcase.DrawTypeRoutes(rt, gen.Pick(rt, "aeadtype", aeadcase.Types), []string{"handle", "key"})
+		} else {
+			c = aeadcase.DrawTypeRoutes(rt, gen.Pick(rt, "aeadtype", subtleAEADTypes), []string{"subtle"})
+		}
 		// rebuild the same configuration from arena-backed key bytes, then scribble
 		p := &probe{t: rt, desc: c.String()}
 		d := *c
